@@ -459,7 +459,9 @@ func c20Queries(rc *RunCtx, w *harness.World, states []c20State) (int, int) {
 		wc := func(c sdk.Context) interface{ Value(interface{}) interface{} } { return sdk.WrapSDKContext(g(c)) }
 		_ = wc
 		call("vesting.Params{nil}", st, func(c sdk.Context) (interface{}, error) { return vk.Params(sdk.WrapSDKContext(c), nil) })
-		call("vesting.Params{}", st, func(c sdk.Context) (interface{}, error) { return vk.Params(sdk.WrapSDKContext(c), &vtypes.QueryParamsRequest{}) })
+		call("vesting.Params{}", st, func(c sdk.Context) (interface{}, error) {
+			return vk.Params(sdk.WrapSDKContext(c), &vtypes.QueryParamsRequest{})
+		})
 		call("vesting.VestingType{nil}", st, func(c sdk.Context) (interface{}, error) { return vk.VestingType(sdk.WrapSDKContext(c), nil) })
 		call("vesting.VestingType{}", st, func(c sdk.Context) (interface{}, error) {
 			return vk.VestingType(sdk.WrapSDKContext(c), &vtypes.QueryVestingTypeRequest{})
@@ -480,19 +482,29 @@ func c20Queries(rc *RunCtx, w *harness.World, states []c20State) (int, int) {
 			return vk.GenesisVestingsSummary(sdk.WrapSDKContext(c), &vtypes.QueryGenesisVestingsSummaryRequest{})
 		})
 		call("minter.Params{nil}", st, func(c sdk.Context) (interface{}, error) { return mk.Params(sdk.WrapSDKContext(c), nil) })
-		call("minter.Params{}", st, func(c sdk.Context) (interface{}, error) { return mk.Params(sdk.WrapSDKContext(c), &mtypes.QueryParamsRequest{}) })
+		call("minter.Params{}", st, func(c sdk.Context) (interface{}, error) {
+			return mk.Params(sdk.WrapSDKContext(c), &mtypes.QueryParamsRequest{})
+		})
 		call("minter.Inflation{nil}", st, func(c sdk.Context) (interface{}, error) { return mk.Inflation(sdk.WrapSDKContext(c), nil) })
 		call("minter.Inflation{}", st, func(c sdk.Context) (interface{}, error) {
 			return mk.Inflation(sdk.WrapSDKContext(c), &mtypes.QueryInflationRequest{})
 		})
 		call("minter.State{nil}", st, func(c sdk.Context) (interface{}, error) { return mk.State(sdk.WrapSDKContext(c), nil) })
-		call("minter.State{}", st, func(c sdk.Context) (interface{}, error) { return mk.State(sdk.WrapSDKContext(c), &mtypes.QueryStateRequest{}) })
+		call("minter.State{}", st, func(c sdk.Context) (interface{}, error) {
+			return mk.State(sdk.WrapSDKContext(c), &mtypes.QueryStateRequest{})
+		})
 		call("distr.Params{nil}", st, func(c sdk.Context) (interface{}, error) { return dk.Params(sdk.WrapSDKContext(c), nil) })
-		call("distr.Params{}", st, func(c sdk.Context) (interface{}, error) { return dk.Params(sdk.WrapSDKContext(c), &dtypes.QueryParamsRequest{}) })
+		call("distr.Params{}", st, func(c sdk.Context) (interface{}, error) {
+			return dk.Params(sdk.WrapSDKContext(c), &dtypes.QueryParamsRequest{})
+		})
 		call("distr.States{nil}", st, func(c sdk.Context) (interface{}, error) { return dk.States(sdk.WrapSDKContext(c), nil) })
-		call("distr.States{}", st, func(c sdk.Context) (interface{}, error) { return dk.States(sdk.WrapSDKContext(c), &dtypes.QueryStatesRequest{}) })
+		call("distr.States{}", st, func(c sdk.Context) (interface{}, error) {
+			return dk.States(sdk.WrapSDKContext(c), &dtypes.QueryStatesRequest{})
+		})
 		call("signature.Params{nil}", st, func(c sdk.Context) (interface{}, error) { return sk.Params(sdk.WrapSDKContext(c), nil) })
-		call("signature.Params{}", st, func(c sdk.Context) (interface{}, error) { return sk.Params(sdk.WrapSDKContext(c), &sigtypes.QueryParamsRequest{}) })
+		call("signature.Params{}", st, func(c sdk.Context) (interface{}, error) {
+			return sk.Params(sdk.WrapSDKContext(c), &sigtypes.QueryParamsRequest{})
+		})
 		call("signature.CreateReferenceId{nil}", st, func(c sdk.Context) (interface{}, error) { return sk.CreateReferenceId(sdk.WrapSDKContext(c), nil) })
 		call("signature.CreateStorageKey{nil}", st, func(c sdk.Context) (interface{}, error) { return sk.CreateStorageKey(sdk.WrapSDKContext(c), nil) })
 		call("signature.CreateReferencePayloadLink{nil}", st, func(c sdk.Context) (interface{}, error) {
